@@ -945,6 +945,13 @@ def magnitude_check(op, x, d, e, tol):
             return 'skip', None       # overflow within the stencil: outside the resolvable region
         if c14.size and np.max(np.abs(c12 - c14)) > 1e-5 * np.max(np.abs(c14)):
             return 'skip', None
+        # ... and COMPONENT-wise, as cd_check judges component-wise: a component whose two finest
+        # difference quotients disagree is not resolved by the stencil even if a larger component
+        # dominates the sup norm (e.g. sin at |x| ~ 2^40 beside a linear block: false alarm seen in
+        # round 4 at seed 0 once the random draws shifted)
+        if c14.size and c14.shape == v.shape and np.any(
+                np.abs(c12 - c14) > 1e-5 * np.maximum(np.abs(c12), np.abs(c14)) + 1e-9 * np.abs(v)):
+            return 'skip', None
     except Exception:  # noqa  (evaluation outside the domain of the operator)
         return 'skip', None
     where = 'base point scaled by 2^{} (|x|_inf = {:.3e})'.format(e, float(np.max(np.abs(flat(xs)))))
@@ -2485,6 +2492,182 @@ LEAF_BRANCHES = ['leaf/{}/{}'.format(t, st) for t, sts in [
     'leaf/pwnorm/exponent-spelling=2', 'leaf/pwnorm/exponent-spelling=2.0']
 
 
+# ---------------------------------------------------------------------------
+# leafcomp stream (round 4): OperatorComp(norm-type leaf, random exact tree) — Model/DerivLeafComp.lean
+# (tree at Rat, leaf at Float) against the real composition; oracle = central differences
+
+LC_SPACES = {
+    'norm': [(2, 2), (3, 2), (2, 3), (3, 3), ((2, 1), 2), ((2, 2), 3), (('c', 2), 2), (1, 1), (2, 1)],
+    'cmod': [(2, ('c', 2)), (('c', 2), ('c', 2)), (3, ('c', 3)), (('c', 1), ('c', 1)), (1, ('c', 1))],
+    'pwnorm': [(2, (2, 2)), ((2, 2), (2, 2)), (3, (2, 2, 2)), ((1, 1, 1), (2, 2, 2)), (2, (1, 1)),
+               (3, (3, 3)), ((2, 2), (3, 3)), (1, (1, 1, 1)), ((2, 1), (1, 1))],
+}
+LC_SPACES['dist'] = LC_SPACES['norm']
+
+
+def gen_leafcomp_case(rng):
+    for _ in range(200):
+        t = rng.choice(['norm', 'dist', 'cmod', 'pwnorm'])
+        S, T = rng.choice(LC_SPACES[t])
+        depth = rng.choice([0, 1, 1, 2, 2, 3])
+        spec = gen(rng, S, T, depth) if rng.random() < 0.35 else gen_nonlinear(rng, S, T, depth)
+        x = rints(rng, dim(S), -2, 2)
+        d = rints(rng, dim(S), -2, 2)
+        try:
+            bnd(spec, max([abs(v) for v in x] + [1]))
+            bnd(spec, max([abs(v) for v in d] + [1]))
+            dbnd(spec, max([abs(v) for v in x] + [1]), max([abs(v) for v in d] + [1]))
+        except Bound:
+            continue
+        if t in ('norm', 'dist'):
+            leaf = {'t': t, 'n': T}
+            if t == 'dist':
+                leaf['y'] = [float(v) for v in rints(rng, T, -3, 3)]
+                if rng.random() < 0.12:
+                    # reference vector := the inner value tree(x): the non-differentiable point of the
+                    # outer operator reached THROUGH the tree (filled in by run_leafcomp_case)
+                    leaf['y_from_inner'] = True
+        elif t == 'cmod':
+            leaf = {'t': t, 'n': T[1]}
+        else:
+            leaf = {'t': t, 'm': len(T), 'n': T[0], 'exp': rng.choice([None, 2])}
+        return {'kind': 'leafcomp', 'leaf': leaf, 'spec': spec, 'x': x, 'd': d}
+    raise core.Infra('could not generate a bounded tree under a leaf')
+
+
+def run_leafcomp_case(c):
+    """Real code on OperatorComp(leaf, tree).  Returns (line, impl dict | error string, problems, info)."""
+    import odl
+    leaf, spec = c['leaf'], c['spec']
+    if leaf.pop('y_from_inner', False):
+        try:
+            del BUILT[:]
+            leaf['y'] = [float(v) for v in flat(build(spec)(elem(spec['dom'], c['x']))).tolist()]
+        except Exception:  # noqa
+            pass
+    line = 'leafcomp t={} u={} x={} d={}'.format(leaf_token(leaf), '|'.join(tokens(spec)), fl(c['x']), fl(c['d']))
+    info = {'singular': False, 'inner_linear': None, 'small': False}
+    del BUILT[:]
+    try:
+        tree = build(spec)
+        lop, _ = build_leaf(leaf)
+        op = odl.OperatorComp(lop, tree)
+    except Exception as e:  # noqa
+        del BUILT[:]
+        return line, 'err:construct {}: {}'.format(type(e).__name__, str(e)[:160]), \
+            ['constructor raised {}: {}'.format(type(e).__name__, str(e)[:200])], info
+    problems = flag_problems_of_built()
+    S = spec['dom']
+    x, d = elem(S, c['x']), elem(S, c['d'])
+    try:
+        with np.errstate(all='ignore'):
+            inner = flat(tree(x))
+            val = flat(op(x))
+        impl = {'dom': space_dim(op.domain), 'ran': space_dim(op.range), 'val': _ftoks(val.tolist())}
+    except Exception as e:  # noqa
+        return line, 'err:call {}: {}'.format(type(e).__name__, str(e)[:160]), \
+            problems + ['op(x) raised {}: {}'.format(type(e).__name__, str(e)[:160])], info
+    if leaf['t'] == 'dist':
+        singular = bool(np.all(inner == np.array(leaf['y'])))
+    else:
+        singular = bool(np.any(val == 0))
+    info.update({'singular': singular, 'inner_linear': bool(tree.is_linear),
+                 'small': bool(inner.size == 0 or float(np.max(np.abs(inner))) < 2.0 ** 25)})
+    if not singular:
+        with np.errstate(all='ignore'):
+            pr, _, _ = oracle_on(op, x, d, exact_linear=False, history=not QUICK[0])
+        problems = problems + list(pr)
+    try:
+        with np.errstate(all='ignore'):
+            D = op.derivative(x)
+    except ValueError as e:
+        impl['raised'] = 'ValueError'
+        if not (singular and leaf['t'] in ('norm', 'dist')):
+            problems.append('derivative(x) raised ValueError although the inner value is not the '
+                            'non-differentiable point: ' + str(e)[:160])
+        return line, impl, problems, info
+    except Exception as e:  # noqa
+        return line, 'err:deriv {}: {}'.format(type(e).__name__, str(e)[:160]), \
+            problems + ['derivative(x) raised {}: {}'.format(type(e).__name__, str(e)[:160])], info
+    if singular and leaf['t'] in ('norm', 'dist'):
+        problems.append('derivative did not raise the documented ValueError although the inner value is '
+                        'the non-differentiable point of the outer operator')
+    try:
+        with np.errstate(all='ignore'):
+            impl['dval'] = _ftoks(flat(D(d)).tolist())
+    except Exception as e:  # noqa
+        return line, 'err:deriv-value {}: {}'.format(type(e).__name__, str(e)[:160]), \
+            problems + ['derivative(x)(d) raised {}: {}'.format(type(e).__name__, str(e)[:160])], info
+    return line, impl, problems, info
+
+
+def compare_leafcomp(ctx, c, impl, ans, info):
+    """Exact for ComplexModulus / PointwiseNorm (element-wise arithmetic on the exact inner value);
+    for NormOperator / DistOperator the value is exact while the sum of squares is (inner value below
+    2^25), and what goes through a BLAS dot product of non-dyadic data is compared to rel. 1e-13."""
+    t = c['leaf']['t']
+    if isinstance(impl, str):
+        ctx.disagree(c, impl, ans[:300], stream='leafcomp')
+        return
+    f = dict(tok.split('=', 1) for tok in ans.split()[1:]) if ' ' in ans else {}
+    if impl.get('raised'):
+        if not ans.startswith('err:deriv '):
+            ctx.disagree(c, 'derivative raised ' + impl['raised'], ans[:300], stream='leafcomp')
+            return
+        keys = ('dom', 'ran', 'val')
+    else:
+        if not ans.startswith('ok '):
+            ctx.disagree(c, 'ok', ans[:300], stream='leafcomp')
+            return
+        keys = ('dom', 'ran', 'val', 'dval')
+    elementwise = t in ('cmod', 'pwnorm')
+    mode = {'dom': 0, 'ran': 0, 'val': 0 if (elementwise or info['small']) else 1e-13,
+            'dval': 0 if elementwise else 1e-13}
+    for key in keys:
+        a, b = str(impl[key]), f.get(key, '?')
+        if a == b or (mode[key] and _close_toks(a, b, mode[key])):
+            continue
+        ctx.disagree(c, '{}={}'.format(key, a), '{}={}'.format(key, b), stream='leafcomp')
+        return
+
+
+def leafcomp_key(c):
+    return 'leafcomp OperatorComp({}, tree top={})'.format(LEAF_CLASS[c['leaf']['t']], kinds(c['spec'])[0])
+
+
+def leafcomp_stream(ctx, n_cases):
+    rng = ctx.rng
+    batch, lines = [], []
+    for _ in range(n_cases):
+        c = gen_leafcomp_case(rng)
+        line, impl, problems, info = run_leafcomp_case(c)
+        batch.append((c, impl, problems, info))
+        lines.append(line)
+    outs = core.run_driver('C06', lines)
+    for (c, impl, problems, info), ans in zip(batch, outs):
+        t = c['leaf']['t']
+        ks = kinds(c['spec'])
+        nontrivial = (not isinstance(impl, str) and not impl.get('raised') and
+                      any(tok not in ('0', 'nan') for tok in impl.get('dval', '0').split(',')))
+        ctx.case(('leafcomp', t, ks[0], tuple(sorted(set(ks)))) if nontrivial else None,
+                 sample={'leaf': leaf_token(c['leaf']), 'tree': '|'.join(tokens(c['spec']))[:200],
+                         'x': c['x'], 'd': c['d'], 'model_answer': ans[:160]}
+                 if nontrivial and len(ks) <= 4 and not info['inner_linear'] else None)
+        ctx.hit('leafcomp/{}/{}'.format(t, 'inner-value-singular' if info['singular'] else 'regular'))
+        if info['inner_linear'] is not None:
+            ctx.hit('leafcomp/{}/inner-{}'.format(t, 'linear' if info['inner_linear'] else 'nonlinear'))
+        if not isinstance(impl, str) and impl.get('raised'):
+            ctx.hit('leafcomp/{}/outer-derivative-raises'.format(t))
+        if problems:
+            ctx.violation(leafcomp_key(c), '; '.join(problems)[:700], c)
+        compare_leafcomp(ctx, c, impl, ans, info)
+
+
+LEAFCOMP_BRANCHES = ['leafcomp/{}/{}'.format(t, b) for t in ['norm', 'dist', 'cmod', 'pwnorm']
+                     for b in ['regular', 'inner-value-singular', 'inner-linear', 'inner-nonlinear']] + [
+    'leafcomp/norm/outer-derivative-raises', 'leafcomp/dist/outer-derivative-raises']
+
+
 def regenerate(ctx):
     from extract import ufunc_deriv
     changed = ufunc_deriv.regenerate()
@@ -2532,7 +2715,8 @@ def run(ctx):
     exact_stream(ctx, 1500 if quick else 20000)
     mixed_stream(ctx, 300 if quick else 4000)
     functional_stream(ctx, 320 if quick else 3000)
-    leaf_stream(ctx, 400 if quick else 6000)
+    leaf_stream(ctx, 300 if quick else 6000)
+    leafcomp_stream(ctx, 200 if quick else 5000)
     zoo_stream(ctx, 3 if quick else 25)
     try:
         exceptional_points(ctx)
@@ -2544,7 +2728,7 @@ def run(ctx):
         ctx.hit(key, cnt)
     ctx.extra['observations'] = {k: v for k, v in sorted(HIST.items()) if k.startswith('observation/')}
     if not quick:
-        unhit = [b for b in EXPECTED_BRANCHES + LEAF_BRANCHES if b not in ctx.branches]
+        unhit = [b for b in EXPECTED_BRANCHES + LEAF_BRANCHES + LEAFCOMP_BRANCHES if b not in ctx.branches]
         ctx.extra['unhit_model_branches'] = unhit
         if unhit:
             ctx.disagree({'kind': 'coverage'}, 'branches never generated', unhit, stream='coverage')
@@ -2612,6 +2796,15 @@ def search(ctx, broken):
                                   '; '.join(problems)[:700], c)
                     if len(ctx.violations) > 20:
                         break
+        if not ctx.violations:
+            for i in range(1500):
+                c = gen_leafcomp_case(rng)
+                _, _, problems, _ = run_leafcomp_case(c)
+                ctx.evaluations += 1
+                if problems:
+                    ctx.violation(leafcomp_key(c), '; '.join(problems)[:700], c)
+                    if len(ctx.violations) > 20:
+                        break
     finally:
         ctx.tier = saved
 
@@ -2631,6 +2824,11 @@ def replay(ctx, case):
         return '; '.join(problems) if problems else None
     if kind == 'leaf':
         _, _, problems = run_leaf_case(case)
+        return '; '.join(problems) if problems else None
+    if kind == 'leafcomp':
+        c = dict(case)
+        c['spec'] = norm_spec(case['spec'])
+        _, _, problems, _ = run_leafcomp_case(c)
         return '; '.join(problems) if problems else None
     if kind == 'zoo':
         for entry in zoo(ctx):
